@@ -12,16 +12,16 @@ NOTES = {
  'C02': ("exhaustive over all 65,536 \\uXXXX units, all 1,048,576 surrogate pairs, all scalar values raw (value and key), backslash + every ASCII character; every valid document among all token sequences <= 6/7; proptest renderings of random/large trees through all 13 entry points; value read back through public accessors vs the reference decoder, every key lookup vs a linear scan",
          "trusts the reference decoder in refjson.rs",
          "PBT: exhaustive escape/scalar enumeration + proptest, differential vs reference decoder"),
- 'C03': ("proptest byte vectors, corpus prefixes/edits and token sequences under all 4 option records through byte, str, counting-iterator and DecodedChar entry points (no panic, poll budget, verdict = reference); child processes parsing 11 deep-nesting families at depth 10^3..10^6 (2*10^6 thorough) inside a 128 KiB thread stack with closed-form expectations; libFuzzer (thorough)",
+ 'C03': ("proptest byte vectors, corpus prefixes/edits and token sequences under all 4 option records through byte, str, counting-iterator and DecodedChar entry points (no panic, poll budget, verdict = reference) plus the nine option-less entry points incl. FromStr; child processes parsing 11 deep-nesting families at depth 10^3..10^6 (2*10^6 thorough) inside a 128 KiB thread stack with closed-form expectations; libFuzzer (thorough)",
          "a recursive parser/traversal cannot fit 10^5+ levels in 128 KiB; one open known finding (K01) is matched by family and signal only",
          "PBT + fault-style deep-nesting probes in child processes; oracle = reference automaton + closed forms"),
- 'C04': ("proptest (value x option record, incl. large values) + bounded-exhaustive product of 570 small values x ~750/3150 option records + libFuzzer (thorough): printed text accepted by the reference automaton, denotes the original tree, re-parses to an equal value, and minus insignificant whitespace equals the reference compact form",
+ 'C04': ("proptest (value x option record, incl. large values) + bounded-exhaustive product of 570 small values x ~750/3150 option records + libFuzzer (thorough): printed text accepted by the reference automaton, denotes the original tree, re-parses to an equal value, and minus insignificant whitespace equals the reference compact form; values built through nine construction routes (constructors, push, parsing of compact and of escaped renderings, clone, From/FromIterator, Extend, the serde bridges) and values post-processed in place (canonicalize, sort, as_*_mut mutation) before printing",
          "trusts refjson.rs and refprint.rs",
          "PBT: round-trip + differential vs reference automaton/serializer"),
  'C05': ("every valid document among all strings <= 7/8 over the 18-character alphabet and all token sequences <= 6/7, proptest renderings with heavy whitespace (incl. large documents); code map of 6 entry points and of `parse` over UTF-16/constant character lengths == reference fragment table; span text re-parses to the fragment",
          "trusts the reference fragment builder in refjson.rs",
          "PBT: bounded-exhaustive + proptest, differential vs reference fragment table"),
- 'C06': ("state-exhaustive (every entry list <= 5/6 over 2/3 keys x every operation instance x two construction routes), history-exhaustive (every history <= 4/5 over ~75 operation instances, cloned walk + fresh replay), long random histories over 85 keys, 1200-key histories (index growth to several hundred keys), 3-key histories (dozens of duplicates); after every operation: entries, result, full query battery and hook-dumped index vs a list model",
+ 'C06': ("state-exhaustive (every entry list <= 5/6 over 2/3 keys x every operation instance x two construction routes), history-exhaustive (every history <= 4/5 over ~75 operation instances, cloned walk + fresh replay), long random histories over 85 keys, 1200-key histories (index growth to several hundred keys), 3-key histories (dozens of duplicates), operations incl. clone_from and canonicalize over keys above U+FFFF; after every operation: entries, result, full query battery and hook-dumped index vs a list model",
          "trusts the Vec model in props/c06.rs and objquery.rs; remove_unique on duplicates is checked only as far as the rustdoc promises",
          "PBT: stateful model-based testing, bounded-exhaustive + proptest histories"),
  'C07': ("the C01 enumerations restricted to rejected inputs + stream-error injection at every character of every corpus document: every reported error (variant, offset, character, span, code units, accessor consistency) vs the reference viable-prefix recogniser",
@@ -48,13 +48,13 @@ NOTES = {
  'C14': ("proptest triples of a value and near-copies (== must equal equality of reference trees; reflexive, antisymmetric, transitive, cmp/partial_cmp/operators coherent, equal => same DefaultHasher hash and same byte stream to a recording Hasher), 9 construction routes for one entry list, mixed-size triples, every ordered triple over 43 small values",
          "content = reference tree read through public accessors",
          "PBT: algebraic laws over proptest-generated triples and construction routes"),
- 'C15': ("all ordered pairs of the 6,175 objects with <= 3 entries over 2 keys x 9 values and of the 11,111 objects with <= 4 entries over 5 values (thorough: 41,371 objects over 7 values), wrapped variants, shuffles and single-leaf mutations of random/large values, wide objects over <= 3 keys x 4 values, objects reached through operation histories; vs 'normal forms are equal'",
+ 'C15': ("all ordered pairs of the 6,175 objects with <= 3 entries over 2 keys x 9 values and of the 11,111 objects with <= 4 entries over 5 values (thorough: 41,371 objects over 7 values), wrapped variants, shuffles and single-leaf mutations of random/large values, wide objects over <= 3 keys x 4 values, objects reached through operation histories, operands canonicalized or sorted in place; vs 'normal forms are equal'",
          "trusts the normal-form reference in props/c15.rs",
          "PBT: bounded-exhaustive pairs + proptest, differential vs normal-form reference"),
  'C16': ("proptest instances of a derive-annotated type family covering every data-model shape the serializer implements (all integer widths at bounds, f32/f64 from random bits, Unicode, maps keyed by String/i64/i8/u8/u64/char/unit variant/newtype): round trip, shape agreement with serde_json, deserialization of serde_json's Value and text rendering; 2M/50M isolated floats",
          "serde_json is the reference the property names; exclusions listed in DESIGN C16",
          "PBT: round-trip + differential vs serde_json"),
- 'C17': ("proptest values outside the known-finding classes (exact serialization model incl. duplicate collapse; Value->Value and text->Value deserialization), all number spellings with class-predicate attribution of the 4 open findings, large shapes, fixed probes",
+ 'C17': ("proptest values outside the known-finding classes (exact serialization model incl. duplicate collapse; Value->Value and text->Value deserialization), all number spellings with class-predicate attribution of the 4 open findings, large shapes, duplicated keys whose values are permutations of each other, fixed probes; libFuzzer value_laws target (thorough)",
          "serde_json with /repo's features; open findings K02-K05 matched by machine-computed class predicates only",
          "PBT: proptest, model + differential vs serde_json"),
  'C18': ("proptest serde_json values (all three number representations, private-token objects), json-syntax values of the stated domain (incl. exactly respelled special doubles), unrestricted values for the no-panic clause; a float difference is attributed to the open finding only if bit-equal to serde_json's own FromStr of that token",
@@ -63,7 +63,7 @@ NOTES = {
  'C19': ("3,000/30,000 generated programs: documents emitted as Rust json! invocations and as JSON text, compiled in one crate per 1,000 against the current /repo and run; a compile error of a generated program is a failure",
          "float literals outside the 'stable' class are compared by f64 bits",
          "PBT over programs: generate, compile, run, compare with parse of the same text"),
- 'C20': ("the complete finite domain: 64 sets, 64x64 and 64x6 pairs in both operand orders, 6x6 kind pairs, every front/back interleaving of iteration, all renderings, Value::kind/is_kind; vs a BTreeSet model",
+ 'C20': ("the complete finite domain: 64 sets, 64x64 and 64x6 pairs in both operand orders, 6x6 kind pairs, every front/back interleaving of iteration, all renderings (also as embedded in the Unexpected error message), Value::kind/is_kind; vs a BTreeSet model",
          "exhaustive; renderings follow the rustdoc examples",
          "exhaustive enumeration vs set model (PBT family, exhaustive generator)"),
 }
@@ -98,7 +98,7 @@ m = {
               "kind_free_text": "Rust binary: proptest runners with fixed seeds, rayon-parallel bounded-exhaustive enumerators, reference models; worker runs in a child process"}],
  "checks": checks,
  "not_applicable": [{"property_id": p['id'], "reason": "no check built; not claimed"} for p in props if p['id'] not in impl],
- "notes": "exit 0 = held; 1 = VIOLATION line printed; 2 = inconclusive (never used to hide a violation). VERIF_SEED feeds every random choice."
+ "notes": "every check first replays the saved minimal failing cases under regress/ (family R_regression_replays); thorough adds libFuzzer campaigns (parse_diff, print_rt, object_ops under ASan, value_laws). exit 0 = held; 1 = VIOLATION line printed; 2 = inconclusive (never used to hide a violation). VERIF_SEED feeds every random choice."
 }
 json.dump(m, open(f'{V}/MANIFEST.json', 'w'), indent=1)
 print("claimed:", [c['property_id'] for c in checks])
